@@ -30,7 +30,7 @@ import sys
 import time
 
 from pvc.explore import Raised
-from pvc.sym import And, eq, is_sym, PathAbort
+from pvc.sym import And, eq, is_sym, PathAbort, SymNum
 from . import fx
 
 
@@ -61,6 +61,8 @@ def _same(got, exp):
             got = got.item()
     except ImportError:  # pragma: no cover
         pass
+    if isinstance(got, SymNum) and isinstance(exp, SymNum) and got.t.eq(exp.t):
+        return True      # the very same term: no solver needed
     return eq(got, exp)
 
 
@@ -219,6 +221,8 @@ def _run_case(env, tag, rel, scope, oracle, steps, sfx="", key_orders="both", **
     cases = (["eval"] if steps == "one" else []) + _chains(names, steps, key_orders)
     case = env.choice("case", cases)
     env.cover("post")
+    if getattr(env, "dry", False):
+        return       # subprocess replay: only the requested case is executed
     if case == "eval":
         _check_eval(env, tag, rel, scope, oracle, sfx)
     else:
@@ -248,6 +252,8 @@ def h_matrix(env):
     if p.get("extra"):
         chain = env.choice("case", _with_extras(_chains(_names(vs), "one", "all")))
         env.cover("post")
+        if getattr(env, "dry", False):
+            return
         _check_chain(env, "matrix", rel, vs, oracle, chain, "[ignore_extra_vars]", slice_kw=dict(ignore_extra_vars=True))
         return
     _run_case(env, "matrix", rel, vs, oracle, p["steps"], key_orders="all")
@@ -519,7 +525,7 @@ def _expression_shapes(tier):
             if tier == "thorough":
                 out += [dict(build=b, exprs=[e], steps=s) for e in four]
             else:
-                out.append(dict(build=b, exprs=four[:1], steps=s, max_orders=6 if s == "one" else 3))
+                out.append(dict(build=b, exprs=four[:1], steps=s, max_orders=6 if s == "one" else 2))
     out += [dict(build="unary-function", exprs=["unary"], steps=s) for s in ("one", "several")]
     return out
 
@@ -534,6 +540,7 @@ class _MiniEnv:
     """concrete stand-in for pvc's Env inside the subprocess: choices are enumerated by a
     decision vector, numeric inputs are distinct plain numbers"""
     symbolic = False
+    dry = False
 
     def __init__(self, params, prefix):
         self.params = params
@@ -597,26 +604,37 @@ class _MiniEnv:
             return Raised(e, traceback.format_exc(limit=6))
 
 
-def _enumerate(harness, params):
-    """all paths of a concrete harness (odometer over its choices)"""
-    paths, prefix = [], []
-    while True:
-        env = _MiniEnv(params, prefix)
-        aborted = False
-        try:
-            harness(env)
-        except PathAbort:
-            aborted = True
-        if not aborted:
-            paths.append(dict(choices=env.names, covered=env.covered,
-                              obl=[[lab, o[0], o[1], o[2]] for lab, o in env.obl.items()]))
-        ks = env.decisions
-        i = len(ks) - 1
-        while i >= 0 and ks[i][0] + 1 >= ks[i][1]:
-            i -= 1
-        if i < 0:
-            return paths
-        prefix = [k for k, _ in ks[:i]] + [ks[i][0] + 1]
+def _enumerate(items, tier, only=None):
+    """all paths of the concrete harnesses of ``items`` = [(target, shape), ...] (odometer over
+    their choices), in a fixed order.  ``only``: execute the checks of that path alone (the
+    others are run up to their last choice, to keep the numbering) and stop after it."""
+    paths, idx = [], 0
+    for target, shape in items:
+        harness, params = _HARNESSES[target], dict(shape, _tier=tier, _seed=0)
+        prefix = []
+        while True:
+            env = _MiniEnv(params, prefix)
+            env.dry = only is not None and idx != only
+            aborted = False
+            try:
+                harness(env)
+            except PathAbort:
+                aborted = True
+            if not aborted:
+                if not env.dry:
+                    paths.append(dict(index=idx, target=target, shape=shape, choices=env.names, covered=env.covered,
+                                      obl=[[lab, o[0], o[1], o[2]] for lab, o in env.obl.items()]))
+                if only is not None and idx == only:
+                    return paths
+                idx += 1
+            ks = env.decisions
+            i = len(ks) - 1
+            while i >= 0 and ks[i][0] + 1 >= ks[i][1]:
+                i -= 1
+            if i < 0:
+                break
+            prefix = [k for k, _ in ks[:i]] + [ks[i][0] + 1]
+    return paths
 
 
 def _worker_main(argv):
@@ -626,7 +644,7 @@ def _worker_main(argv):
     job = json.loads(argv[0])
     out = dict(hashseed=os.environ.get("PYTHONHASHSEED"), set_order=list({"x", "y", "z", "w"}))
     try:
-        out["paths"] = _enumerate(_HARNESSES[job["target"]], dict(job["shape"], _tier=job.get("tier", "quick"), _seed=0))
+        out["paths"] = _enumerate(job["items"], job.get("tier", "quick"), job.get("only"))
     except BaseException as e:  # noqa
         out["error"] = "%r\n%s" % (e, traceback.format_exc(limit=12))
     sys.stdout.write("\n@@RESULT@@" + json.dumps(out, default=str) + "\n")
@@ -648,35 +666,38 @@ def _runner_id():
     return "%d_%s" % (ppid, start)
 
 
-def _seed_results(job, fresh):
-    """result of the subprocess running ``job`` under PYTHONHASHSEED=job['seed'].  Cached per
-    process and (for the exploring workers of one ./check run only, never for replays) on disk."""
+def _spawn(job):
+    e = dict(os.environ)
+    e["PYTHONHASHSEED"] = str(job["seed"])
+    e["PYTHONWARNINGS"] = "ignore"
+    try:
+        pr = subprocess.run([sys.executable, "-m", "contracts.c_relkinds", json.dumps(job)], cwd=_ROOT, env=e,
+                            stdout=subprocess.PIPE, stderr=subprocess.PIPE, timeout=job.get("timeout", 1500))
+    except subprocess.TimeoutExpired:
+        return dict(error="subprocess timed out")
+    txt = pr.stdout.decode("utf-8", "replace")
+    if "@@RESULT@@" in txt:
+        return json.loads(txt.rsplit("@@RESULT@@", 1)[1])
+    return dict(error="no result (exit %s): %s" % (pr.returncode, pr.stderr.decode("utf-8", "replace")[-1500:]))
+
+
+def _seed_results(job):
+    """all cases of ``job`` run in a subprocess under PYTHONHASHSEED=job['seed'].  Cached per
+    process and, for the exploring workers of one ./check run, on disk (replays never use it)."""
     key = json.dumps(job, sort_keys=True)
-    if key in _CACHE and not fresh:
+    if key in _CACHE:
         return _CACHE[key]
     digest = hashlib.sha1((key + "|" + os.environ.get("PVC_REPO", "")).encode()).hexdigest()[:20]
     path = os.path.join(_CACHE_DIR, "%s_%s.json" % (_runner_id(), digest))
     res = None
-    if not fresh and os.path.exists(path):
+    if os.path.exists(path):
         try:
             res = json.load(open(path))
         except Exception:  # noqa
             res = None
     if res is None:
-        e = dict(os.environ)
-        e["PYTHONHASHSEED"] = str(job["seed"])
-        e["PYTHONWARNINGS"] = "ignore"
-        try:
-            pr = subprocess.run([sys.executable, "-m", "contracts.c_relkinds", key], cwd=_ROOT, env=e,
-                                stdout=subprocess.PIPE, stderr=subprocess.PIPE, timeout=job.get("timeout", 900))
-            txt = pr.stdout.decode("utf-8", "replace")
-            if "@@RESULT@@" in txt:
-                res = json.loads(txt.rsplit("@@RESULT@@", 1)[1])
-            else:
-                res = dict(error="no result (exit %s): %s" % (pr.returncode, pr.stderr.decode("utf-8", "replace")[-1500:]))
-        except subprocess.TimeoutExpired:
-            res = dict(error="subprocess timed out")
-        if not fresh and "error" not in res:
+        res = _spawn(job)
+        if "error" not in res:
             try:
                 os.makedirs(_CACHE_DIR, exist_ok=True)
                 now = time.time()
@@ -695,29 +716,48 @@ def _seed_results(job, fresh):
 
 def h_under_seed(env):
     p = env.params
-    job = dict(seed=p["seed"], target=p["target"], shape=p["shape"], tier=p.get("_tier", "quick"))
-    res = _seed_results(job, fresh=not env.symbolic)
-    ok = "error" not in res and str(res.get("hashseed")) == str(p["seed"]) and bool(res.get("paths"))
-    _prove(env, "hashseed.subprocess-ran-all-cases-under-the-seed", ok, detail=lambda: res.get("error") or res.get("hashseed"))
-    if not ok:
-        return
-    k = env.choice("case", list(range(len(res["paths"]))))
-    path = res["paths"][k]
+    job = dict(seed=p["seed"], items=p["items"], tier=p.get("_tier", "quick"))
+    if env.symbolic:
+        res = _seed_results(job)
+        ok = "error" not in res and str(res.get("hashseed")) == str(p["seed"]) and bool(res.get("paths"))
+        _prove(env, "hashseed.subprocess-ran-all-cases-under-the-seed", ok, detail=lambda: res.get("error") or res.get("hashseed"))
+        if not ok:
+            return
+        k = env.choice("case", list(range(len(res["paths"]))))
+        path = res["paths"][k]
+    else:
+        # native replay: a fresh subprocess executes the one case again
+        k = env.choice("case", range(1000000))
+        res = _spawn(dict(job, only=k))
+        ok = "error" not in res and str(res.get("hashseed")) == str(p["seed"])
+        _prove(env, "hashseed.subprocess-ran-all-cases-under-the-seed", ok, detail=lambda: res.get("error") or res.get("hashseed"))
+        if not ok:
+            return
+        env.assume(bool(res["paths"]))
+        path = res["paths"][0]
     for c in path["covered"]:
         env.cover(c)
     for lab, n, nfail, detail in path["obl"]:
-        _prove(env, lab, nfail == 0, detail=lambda: dict(seed=p["seed"], case=path["choices"], instances=n, failed=nfail, first=detail))
+        _prove(env, lab, nfail == 0, detail=lambda: dict(seed=p["seed"], target=path["target"], shape=path["shape"],
+                                                         case=path["choices"], instances=n, failed=nfail, first=detail))
 
 
 def _seeded_shapes(tier):
     seeds = range(8) if tier == "thorough" else (0, 1)
-    targets = [("expression", sh) for sh in _expression_shapes(tier)]
+    groups = {}
+    for sh in _expression_shapes(tier):
+        if tier == "thorough":
+            key = "%s:%s:%s" % (sh["build"], sh["steps"], "+".join(sh["exprs"]) if len(sh["exprs"]) == 1 else "")
+        else:
+            key = sh["build"] if sh["build"] in ("unary-function", "nary-by-position") else "%s:%s" % (sh["build"], sh["steps"])
+        groups.setdefault(key, []).append(["expression", sh])
     # the other kinds do not iterate over sets; a light concrete pass under each seed all the same
-    targets += [("matrix", dict(doms=[3, 2, 2], steps=s)) for s in ("one", "several")]
-    targets += [("function", dict(build=b, doms=[2, 2, 2], steps=s)) for b in ("positional", "named-f_kwargs") for s in ("one", "several")]
-    targets += [("simple", sh) for sh in _simple_shapes("quick")]
-    targets += [("conditional", sh) for sh in _conditional_shapes("quick")]
-    return [dict(seed=s, target=t, shape=sh) for s in seeds for t, sh in targets]
+    other = [["matrix", dict(doms=[3, 2, 2], steps=s)] for s in ("one", "several")]
+    other += [["function", dict(build=b, doms=[2, 2, 2], steps=s)] for b in ("positional", "named-f_kwargs") for s in ("one", "several")]
+    other += [["simple", sh] for sh in _simple_shapes("quick")]
+    groups["other-kinds"] = other
+    groups["conditional"] = [["conditional", sh] for sh in _conditional_shapes("quick")]
+    return [dict(seed=s, group=g, items=items) for s in seeds for g, items in groups.items()]
 
 
 # ------------------------------------------------------------------ registration
